@@ -650,14 +650,19 @@ func c04R4(c *Ctx, rule string) {
 }
 
 // payloadBounded: is len(val) <= maxStreamUnitWrite (or a small constant) at instruction at?
-func payloadBounded(val ssa.Value, at ssa.Instruction, isMax func(ssa.Value) bool) (bool, string) {
+func payloadBounded(val ssa.Value, at ssa.Instruction, isMax func(ssa.Value) bool, edge ...Atom) (bool, string) {
 	// φ of several slices
 	if ph, ok := val.(*ssa.Phi); ok {
 		all := true
 		var ws []string
 		for k, e := range ph.Edges {
 			pred := ph.Block().Preds[k]
-			o, w := payloadBounded(e, pred.Instrs[len(pred.Instrs)-1], isMax)
+			// the condition of the edge pred→φ-block holds for this operand too
+			var ea []Atom
+			if iff, isIf := pred.Instrs[len(pred.Instrs)-1].(*ssa.If); isIf && pred.Succs[0] != pred.Succs[1] {
+				ea = append(ea, NormCond(iff.Cond, pred.Succs[0] == ph.Block()))
+			}
+			o, w := payloadBounded(e, pred.Instrs[len(pred.Instrs)-1], isMax, ea...)
 			ws = append(ws, w)
 			if !o {
 				all = false
@@ -668,6 +673,22 @@ func payloadBounded(val ssa.Value, at ssa.Instruction, isMax func(ssa.Value) boo
 	sl, ok := val.(*ssa.Slice)
 	if !ok {
 		return false, "not a slice expression"
+	}
+	// general form: len(val) as a symbolic affine expression is maxStreamUnitWrite itself, or is bounded by it through
+	// a guard in force here — however the slice and the comparison are spelled
+	if la, okL := sliceLenAff(sl); okL {
+		if len(la.Terms) == 1 && la.C == 0 {
+			for s, k := range la.Terms {
+				if k == 1 && isMax(s) {
+					return true, "length = maxStreamUnitWrite"
+				}
+			}
+		}
+		for _, a := range append(AtomsAt(at), edge...) {
+			if a.Kind == "cmp" && (a.Op == token.LEQ || a.Op == token.LSS) && isMax(a.Y) && affSame(symAff(a.X, 0), la) {
+				return true, "len(payload) " + a.Op.String() + " maxStreamUnitWrite by the guard " + a.String()
+			}
+		}
 	}
 	// in[n:] under guard len(in)-n <= max
 	if sl.High == nil {
